@@ -320,7 +320,11 @@ impl CompressedUsedLeafsIndexes {
     ) -> Result<(), ()> {
         let total_tree_height: u32 = tree_heights.iter().sum::<u8>().into();
 
-        if self.count >= (2u64.pow(total_tree_height) - 1) {
+        // Keys with a total tree height of 64 or more cannot be exhausted by a 64 bit counter
+        let last_leaf = 2u64
+            .checked_pow(total_tree_height)
+            .map_or(u64::MAX, |total_leafs| total_leafs - 1);
+        if self.count >= last_leaf {
             return Err(());
         }
 
